@@ -53,6 +53,7 @@ type FuncContract struct {
 	Requires []*Clause
 	Ensures  []*Clause
 	Defines  []*Clause // definitional postconditions: assumed at call sites, introduce a spec predicate as the post-image of the function
+	Inits    []*Clause // assumed at entry when verifying this function only: the local ghost history starts empty
 	Returns  []*Clause // obligations at every return site, over the source variables in scope there
 	Modifies []*CExpr
 	ModSrc   []string
@@ -296,7 +297,7 @@ func (c *Contracts) LoadFile(path string) error {
 			c.Funcs[fc.Key] = fc
 			c.FuncOrd = append(c.FuncOrd, fc.Key)
 			cur = fc
-		case "requires", "ensures", "returns", "defines":
+		case "requires", "ensures", "returns", "defines", "init":
 			if cur == nil {
 				c.errf(path, ln, "%s outside a function contract", word)
 				continue
@@ -319,6 +320,8 @@ func (c *Contracts) LoadFile(path string) error {
 				cur.Ensures = append(cur.Ensures, cl)
 			case "defines":
 				cur.Defines = append(cur.Defines, cl)
+			case "init":
+				cur.Inits = append(cur.Inits, cl)
 			default:
 				cur.Returns = append(cur.Returns, cl)
 			}
